@@ -91,6 +91,7 @@ if rs:
 else:
     # script demos: README documents how; run `<script> ` with the worktree as cwd / first argument
     pref = [x for x in scripts if x.startswith("demo")]
+    pref = [x for x in pref if x.endswith(".sh")] or pref       # a demo.sh wrapper builds the binary and calls demo.py
     s = (pref or scripts)[0]
     runner = "bash" if s.endswith(".sh") else "python3"
     rc_b, out_b = sh("bash -o pipefail -c '%s %s %s 2>&1 | tail -40'" % (runner, os.path.join(sdir, s), wt))
